@@ -49,7 +49,7 @@ case_strategy = st.fixed_dictionaries({
     "minter": st.sampled_from(["joserfc", "ref"]),
     "spellings": st.lists(spelling, min_size=3, max_size=3),
     "entry": st.integers(0, 7),
-    "keymode": st.sampled_from(["key", "key", "keyset_kid", "callable_key"]),
+    "keymode": st.sampled_from(["key", "key", "keyset_kid", "callable_key", "keyset_single"]),
     "otherkey_seed": st.integers(0, 2**32),
     "pairs": st.lists(st.tuples(st.integers(0, 10**6), st.integers(0, 10**6)), min_size=6, max_size=6),
 })
